@@ -197,7 +197,12 @@ func decodeScalar(data []byte, oid int) interface{} {
 	// Money (int64 in cents)
 	case OidMoney:
 		cents := i64(data, 0)
-		return fmt.Sprintf("$%.2f", float64(cents)/100)
+		// integer arithmetic: float64(cents)/100 cannot hold the cents beyond 2^53 and "%.2f" then prints wrong digits
+		u, sign := uint64(cents), ""
+		if cents < 0 {
+			u, sign = -u, "-" // two's complement negation: also right for math.MinInt64
+		}
+		return fmt.Sprintf("$%s%d.%02d", sign, u/100, u%100)
 
 	// Text types
 	case OidText, OidVarchar, OidBpchar, OidXML, OidJSONPath:
